@@ -19,6 +19,7 @@ import (
 	"sort"
 	"strconv"
 	"strings"
+	"syscall"
 	"testing"
 	"time"
 
@@ -66,6 +67,10 @@ var c17TreeFiles = []string{
 	"lists/sub/e.txt", "lists/sub/a.txt",
 	"lists/sub/deep/f.txt", "lists/sub/deep/a.txt",
 	"lists/sub/deep/deeper/g.txt",
+	// One directory deeper than a file name of the same length, so that a
+	// separator lines up with a metacharacter of a pattern for the latter:
+	// "prv/keys" against "????????", "sub/e" against "sub?e".
+	"lists/prv/keys.txt", "lists/abcdefgh.txt", "lists/subxe.txt",
 	"lists2/a.txt", "lists2/sub/e.txt",
 	"secret/c.txt", "secret/a.txt", "secret/key.pem",
 	"secret/deep/k.txt", "secret/deep/a.txt",
@@ -615,6 +620,13 @@ func c17PatternPool(r string) (fixed []c17Cfg, pool []string) {
 		{"prefix-sibling", []string{p("lists/a*")}},
 		{"trailing-slash-pattern", []string{p("lists/"), p("lists/*/")}},
 		{"dir-itself", []string{p("lists"), p("secret/deep")}},
+		// Metacharacters lined up with a path separator of a deeper file.
+		{"question-run-vs-dir/file", []string{p("lists/????????.txt")}},
+		{"question-at-separator", []string{p("lists/sub?e.txt"), p("lists?b.txt"), r + "?top.txt", p("lists/sub?deep?f.txt")}},
+		{"class-at-separator", []string{p("lists/sub[^a]e.txt"), p("lists/sub[!a]e.txt"), p("lists/sub[a-z]e.txt"), p("lists/sub[.-0]e.txt")}},
+		{"negated-class-next-to-star", []string{p("lists/*[^a]e.txt"), p("lists/[^a]*e.txt"), p("lists/*[^x]*.txt"), p("secret[^a]*")}},
+		{"star-question-mix", []string{p("lists/*?e.txt"), p("lists/???*????.txt"), p("*?a.txt")}},
+		{"escaped-next-to-meta", []string{p(`lists/su\b?e.txt`), p(`lists/\s\u\b*`), p(`lists/sub\/e.txt`)}},
 		// Malformed patterns: the server may refuse to start with them; if
 		// it starts, they match nothing.
 		{"malformed-pattern", []string{p("lists/[a-"), p("lists/b.txt")}},
@@ -629,6 +641,8 @@ func c17PatternPool(r string) (fixed []c17Cfg, pool []string) {
 		p("lists/sub/*"), p("lists/sub/deep/?.txt"), p("lists2/*"), p("*/a.txt"), p("*/*.txt"), p("*/*/*.txt"),
 		p("*/*/*/*.txt"), p("*/*/*/*/*.txt"), p("l*/sub/*"), p("*.txt"), p("top.txt"), p("cwd/lists/*"),
 		p("x/*"), p("lists/*.dat"), p("lists/*.bak"), p("secret/*.pem"),
+		p("lists/????????.txt"), p("lists/sub?e.txt"), p("lists?a.txt"), p("lists/sub[^a]e.txt"), p("lists/*[^a]e.txt"),
+		p("lists/[a-z]??/[a-z]*.txt"), p("secret?c.txt"), p("lists/???/????.txt"), p(`lists/\*`), p("lists/*?.txt"),
 		"*", "*.txt", "*/*", "lists/*", "/*", "/*/*", "/etc/host*", r + "*", r + "/lists*",
 	}
 	return fixed, pool
@@ -1359,6 +1373,164 @@ func (in *c17Inst) addBases() bool {
 	return true
 }
 
+// ---------------------------------------------------------------------------
+// Content-independent observers (add_url / set_url)
+// ---------------------------------------------------------------------------
+
+// c17CmpFiles are three files at equivalent places whose content differs in
+// kind: a valid list, an HTML page, text with binary bytes at known offsets.
+// They are not tree files (two of them are no valid lists).
+var c17CmpFiles = []struct{ rel, kind, body string }{
+	{"secret/cmp-t.txt", "text", "! Title: cmp\n||cmp-text.example^\n"},
+	{"secret/cmp-h.txt", "html", "<!DOCTYPE html>\n<html><head><title>c17-html-marker</title></head><body>c17</body></html>\n"},
+	{"secret/cmp-b.txt", "binary", "||cmp-bin.example^\n# padding\nab\x00\x01\x02\xff\xfecd\n"},
+}
+
+// c17Fifos are named pipes; opening one for reading blocks.
+var c17Fifos = []string{"secret/fifo.txt", "lists/sub/fifo.txt"}
+
+func (tr *c17Tree) c17MakeObservers() error {
+	for _, c := range c17CmpFiles {
+		if err := os.WriteFile(filepath.Join(tr.root, c.rel), []byte(c.body), 0o644); err != nil {
+			return err
+		}
+	}
+	for _, rel := range c17Fifos {
+		if err := syscall.Mkfifo(filepath.Join(tr.root, rel), 0o644); err != nil {
+			return err
+		}
+	}
+	return nil
+}
+
+// contentIndependence asks add_url and set_url for the three files (when no
+// reading of their paths matches the patterns): the refusals must be the same
+// up to the path, whatever the files hold.
+func (in *c17Inst) contentIndependence() {
+	rep, tr := in.env.rep, in.env.tr
+	type ans struct {
+		Kind   string `json:"content_kind"`
+		Path   string `json:"path"`
+		Status int    `json:"status"`
+		Body   string `json:"response_body"`
+		Norm   string `json:"response_body_with_the_path_replaced"`
+	}
+	for _, entry := range []string{"add_url", "set_url"} {
+		var got []ans
+		for _, c := range c17CmpFiles {
+			abs := filepath.Join(tr.root, c.rel)
+			if ex := c17Oracle(in.cfg.Patterns, tr.cwd, abs); ex.Liberal {
+				return // inside the patterns of this list: nothing to compare
+			}
+			var st int
+			var body string
+			if entry == "add_url" {
+				st, body = in.call(http.MethodPost, "/control/filtering/add_url", map[string]any{"name": "n", "url": abs})
+			} else {
+				st, body = in.call(http.MethodPost, "/control/filtering/set_url", map[string]any{"url": in.baseURL[false], "whitelist": false,
+					"data": map[string]any{"name": "n", "url": abs, "enabled": true}})
+			}
+			norm := strings.ReplaceAll(body, abs, "<PATH>")
+			got = append(got, ans{c.kind, abs, st, c17Trunc(body), c17Trunc(norm)})
+			rep.Eval(true, fmt.Sprintf("cmp|%s|%v|%s", entry, in.cfg.Patterns, c.kind))
+			rep.Class("content-independence:" + entry)
+			if c17OK(st) {
+				rep.Violate("accepted-unsafe:"+entry+":plain:content-kind-"+c.kind, entry+" accepted "+abs+", which matches no safe pattern",
+					map[string]any{"safe_fs_patterns": in.cfg.Patterns, "answer": got[len(got)-1]})
+				// Undo.
+				in.call(http.MethodPost, "/control/filtering/remove_url", map[string]any{"url": abs, "whitelist": false})
+			}
+		}
+		same := true
+		for _, g := range got[1:] {
+			if g.Status != got[0].Status || g.Norm != got[0].Norm {
+				same = false
+			}
+		}
+		if same {
+			rep.Event("refusals_identical_for_text_html_binary_files_outside_patterns")
+		} else {
+			rep.Violate("unsafe-read:response-depends-on-content-of-file-outside-patterns:"+entry,
+				"the refusal of "+entry+" differs between a text, an HTML and a binary file at equivalent places outside the safe patterns: the files were read",
+				map[string]any{"safe_fs_patterns": in.cfg.Patterns, "answers": got})
+		}
+	}
+	in.cleanFilters(in.baseID[false], in.baseID[true])
+}
+
+// c17FifoHung remembers the entry points at which a FIFO was already found
+// opened (one witness each is enough; every further try costs a deadline).
+var c17FifoHung = map[string]bool{}
+
+// c17FifoDeadline bounds a call that names a FIFO.  It is a watchdog: the
+// unchanged code answers within microseconds, because it never opens the FIFO.
+const c17FifoDeadline = 4 * time.Second
+
+// fifoOps names FIFOs outside the patterns in add_url and set_url.  Opening
+// a FIFO for reading blocks, so a request that does not return promptly has
+// opened it; the monitor then opens the other end to let it go on.
+func (in *c17Inst) fifoOps() {
+	rep, tr := in.env.rep, in.env.tr
+	for _, rel := range c17Fifos {
+		abs := filepath.Join(tr.root, rel)
+		if ex := c17Oracle(in.cfg.Patterns, tr.cwd, abs); ex.Liberal {
+			rep.Event("fifo_inside_patterns_not_tried")
+			continue
+		}
+		for _, entry := range []string{"add_url", "set_url"} {
+			if c17FifoHung[entry] {
+				continue
+			}
+			type res struct {
+				st   int
+				body string
+			}
+			ch := make(chan res, 1)
+			go func() {
+				var r res
+				if entry == "add_url" {
+					r.st, r.body = in.call(http.MethodPost, "/control/filtering/add_url", map[string]any{"name": "n", "url": abs})
+				} else {
+					r.st, r.body = in.call(http.MethodPost, "/control/filtering/set_url", map[string]any{"url": in.baseURL[false], "whitelist": false,
+						"data": map[string]any{"name": "n", "url": abs, "enabled": true}})
+				}
+				ch <- r
+			}()
+			rep.Eval(true, fmt.Sprintf("fifo|%s|%v|%s", entry, in.cfg.Patterns, rel))
+			rep.Class("fifo-outside-patterns:" + entry)
+			select {
+			case r := <-ch:
+				rep.Event("fifo_requests_answered_promptly")
+				if c17OK(r.st) {
+					rep.Violate("accepted-unsafe:"+entry+":plain:fifo", entry+" accepted the FIFO "+abs+", which matches no safe pattern",
+						map[string]any{"safe_fs_patterns": in.cfg.Patterns, "status": r.st, "body": c17Trunc(r.body)})
+				}
+			case <-time.After(c17FifoDeadline):
+				c17FifoHung[entry] = true
+				// Let the blocked open (or read) go on: open and close the
+				// writing end.
+				unblocked := false
+				for i := 0; i < 100 && !unblocked; i++ {
+					if fd, err := syscall.Open(abs, syscall.O_WRONLY|syscall.O_NONBLOCK, 0); err == nil {
+						_ = syscall.Close(fd)
+						unblocked = true
+					} else {
+						time.Sleep(20 * time.Millisecond)
+					}
+				}
+				rep.Violate("unsafe-open:fifo-outside-patterns-opened:"+entry,
+					fmt.Sprintf("%s naming the FIFO %s, which matches no safe pattern, did not return within %s: the FIFO was opened for reading", entry, abs, c17FifoDeadline),
+					map[string]any{"safe_fs_patterns": in.cfg.Patterns, "fifo": abs, "a_reader_was_waiting_on_the_fifo": unblocked})
+				select {
+				case <-ch:
+				case <-time.After(10 * time.Second):
+					rep.Inconcl("a request blocked on a FIFO could not be released")
+				}
+			}
+		}
+	}
+}
+
 // c17RestartModes are the variants of the refresh entry point in which the
 // DNSFilter under test starts on a data directory that already holds cached
 // list files for the ids of its lists (a restart).
@@ -1776,6 +1948,8 @@ func (e *c17Env) runConfig(rng *rand.Rand, cfg c17Cfg, nRandom int) {
 		in.close()
 		return
 	}
+	in.contentIndependence()
+	in.fifoOps()
 	nAllowed := len(in.allowed)
 	if len(rep.Samples) < 4 {
 		rep.Sample(map[string]any{"safe_fs_patterns": cfg.Patterns, "tree_files_inside_patterns": nAllowed,
@@ -1870,6 +2044,9 @@ func c17Run(t *testing.T, rep *verifkit.Report, strace bool) {
 	if err != nil {
 		t.Fatal(err)
 	}
+	if err = tr.c17MakeObservers(); err != nil {
+		t.Fatal(err)
+	}
 	scratch := filepath.Join(root, "scratch")
 	if err = os.MkdirAll(scratch, 0o755); err != nil {
 		t.Fatal(err)
@@ -1884,8 +2061,8 @@ func c17Run(t *testing.T, rep *verifkit.Report, strace bool) {
 	rep.Assume("a read is recognised by content: every tree file holds a unique rule, looked for in stored list files, response bodies, rule counts and CheckHost")
 
 	fixed, pool := c17PatternPool(tr.root)
-	nRandomCfg := verifkit.Pick(16, 110)
-	nRandomLoc := verifkit.Pick(90, 240)
+	nRandomCfg := verifkit.Pick(10, 110)
+	nRandomLoc := verifkit.Pick(75, 240)
 	cfgs := append([]c17Cfg(nil), fixed...)
 	for i := 0; i < nRandomCfg; i++ {
 		n := 1 + rng.Intn(4)
@@ -1929,7 +2106,7 @@ func c17Run(t *testing.T, rep *verifkit.Report, strace bool) {
 
 func TestVerifC17(t *testing.T) {
 	rep := verifkit.New("C17", "paths",
-		"case = (safe_fs_patterns list, location string, entry point in {add_url, set_url, set_url on a disabled list then enabling it, refresh of a list written into the configuration, second refresh, and the same refresh after a restart on a data directory that already holds cached files for the list ids: written by the monitor / left by an earlier instance that refreshed http lists under those ids / left by an earlier instance with a wider pattern list and the same locations}); the operation runs against a real DNSFilter (captured HTTP handlers) over a tree of 26 files that each hold a unique rule; content of a file may become observable (stored list file, response body, rule count, CheckHost) only if its cleaned absolute path matches a pattern by filepath.Match; non-trivial = some reading of the location names an existing file; distinct by (entry point, patterns, location, block/allow)")
+		"case = (safe_fs_patterns list, location string, entry point in {add_url, set_url, set_url on a disabled list then enabling it, refresh of a list written into the configuration, second refresh, and the same refresh after a restart on a data directory that already holds cached files for the list ids: written by the monitor / left by an earlier instance that refreshed http lists under those ids / left by an earlier instance with a wider pattern list and the same locations}); the operation runs against a real DNSFilter (captured HTTP handlers) over a tree of 29 files that each hold a unique rule (plus FIFOs and HTML/binary files outside the patterns as content-independent observers at add_url/set_url); content of a file may become observable (stored list file, response body, rule count, CheckHost) only if its cleaned absolute path matches a pattern by filepath.Match; non-trivial = some reading of the location names an existing file; distinct by (entry point, patterns, location, block/allow)")
 	defer func() {
 		if err := rep.Write(); err != nil {
 			t.Fatal(err)
